@@ -698,6 +698,49 @@ def mon_abandon(ops, lines):
                         "Pull blocked on it is still waiting (op %d)" % i)
             if ot[0] in ("PUB", "ADV"):
                 break
+    # nothing wedged: a subscription that exists receives what is published to its topic - its message count
+    # (leased + waiting) grows by the size of every Publish issued between two of its STATS answers
+    before, pubs = {}, {}
+    for i in range(x + 1, len(ops)):
+        ot, rt = ops[i].split(" "), lines[i].split(" ")
+        if ot[0] == "STATS" and rt[1:2] == ["0"] and len(rt) >= 5:
+            tot = int(rt[2]) + int(rt[3])
+            if ot[1] in before and pubs.get(ot[1]) and before[ot[1]][1] == rt[4]:
+                want = before[ot[1]][0] + sum(n for t, n in pubs[ot[1]] if t == rt[4])
+                if tot != want and any(t == rt[4] for t, n in pubs[ot[1]]):
+                    return ("C16-wedged-subscription: after the abandoned request %r exists on %r and held %d messages; "
+                            "then %d more were published to that topic, and it holds %d (op %d) - the subscription no "
+                            "longer receives messages" % (unhx(ot[1]), unhx(rt[4]), before[ot[1]][0],
+                                                          want - before[ot[1]][0], tot, i))
+            before[ot[1]] = (tot, rt[4])
+            pubs[ot[1]] = []
+        elif ot[0] == "STATS":
+            before.pop(ot[1], None)
+        elif ot[0] == "PUB" and rt[1:2] == ["0"]:
+            for k in pubs:
+                pubs[k].append((ot[1], int(ot[2])))
+        elif ot[0] in ("GS", "GT", "LTS", "LS", "LT", "Q"):
+            pass
+        else:
+            before.clear()
+            pubs.clear()
+    # a subscription deleted by a later, completed DeleteSubscription is listed nowhere afterwards
+    deleted = set()
+    for i in range(x + 1, len(ops)):
+        ot, rt = ops[i].split(" "), lines[i].split(" ")
+        if ot[0] == "DS" and rt[1:2] == ["0"]:
+            deleted.add(ot[1])
+        elif ot[0] == "CS":
+            deleted.discard(ot[1])
+        elif ot[0] in ("XC", "BG", "SEQ"):
+            deleted.clear()
+        elif ot[0] in ("LS", "LTS") and rt[1:2] == ["0"]:
+            n = int(rt[2])
+            names = rt[3:3 + n] if ot[0] == "LTS" else rt[3:3 + 4 * n:4]
+            hit = deleted & set(names)
+            if hit:
+                return ("C11-deleted-but-listed: %r was deleted by a completed DeleteSubscription and is still listed at "
+                        "op %d (%s)" % (unhx(sorted(hit)[0]), i, ot[0]))
     found = {}
     for i in range(x + 1, len(ops)):
         ot, rt = ops[i].split(" "), lines[i].split(" ")
@@ -916,7 +959,8 @@ def mon_fanout(ops, lines):
         if d.mid not in inst["allowed"]:
             return ("C01-foreign: %r received message %r at op %d, which was never published to its topic while it "
                     "existed" % (unhx(name), unhx(d.mid), idx))
-        inst["by_ack"][d.ack] = d.mid
+        inst["by_ack"].setdefault(d.ack, (d.mid, idx))
+        inst["seen"].setdefault(d.mid, []).append((idx, d.ack))
         if drain_at is not None:
             inst["drained"].add(d.mid)
         return None
@@ -928,8 +972,8 @@ def mon_fanout(ops, lines):
         elif k == "DT" and code == "0":
             topic_inst.pop(ot[1], None)
         elif k == "CS" and code == "0":
-            sub_inst[ot[1]] = {"topic": topic_inst.get(ot[2]), "posted": set(), "allowed": set(), "acked": set(),
-                               "by_ack": {}, "drained": set(), "empty": False, "unsure": False}
+            sub_inst[ot[1]] = {"topic": topic_inst.get(ot[2]), "posted": set(), "allowed": set(), "acked": [],
+                               "by_ack": {}, "seen": {}, "drained": set(), "empty": False, "unsure": False}
         elif k == "DS" and code == "0":
             sub_inst.pop(ot[1], None)
         elif k in ("PUB", "PUBN") and code == "0":
@@ -950,8 +994,10 @@ def mon_fanout(ops, lines):
             for inst in sub_inst.values():
                 inst["allowed"].update(ids)
         elif k == "SEQ":
-            for inst in sub_inst.values():
-                inst["unsure"] = True
+            inner = [x.split(" ")[0] for x in " ".join(ot[1:]).split(" ;; ")]
+            if any(x not in ("ADV", "STATS", "GS", "GT") for x in inner):
+                for inst in sub_inst.values():
+                    inst["unsure"] = True
         elif k == "ADV" and int(ot[1]) == DRAIN_ADV:
             drain_at = idx
         elif k == "SO" and code == "0":
@@ -959,11 +1005,11 @@ def mon_fanout(ops, lines):
         if k in ("ACK",) and code == "0":
             inst = sub_inst.get(ot[1])
             if inst:
-                inst["acked"].update(ack_value(a) for a in ev["ids"] if is_u64(a))
+                inst["acked"] += [(ack_value(a), idx) for a in ev["ids"] if is_u64(a)]
         if k == "SS":
             name, inst = stream_inst.get(ot[1], (None, None))
             if inst:
-                inst["acked"].update(ack_value(a) for a in ev["acks"] if is_u64(a))
+                inst["acked"] += [(ack_value(a), idx) for a in ev["acks"] if is_u64(a)]
         for d in ev.get("msgs", []):
             inst = sub_inst.get(d.sub)
             w = deliver(inst, d.sub, d, idx)
@@ -987,7 +1033,15 @@ def mon_fanout(ops, lines):
         if not inst["empty"] or inst["unsure"]:
             continue
         # a delivery may be acknowledged before the script has read it off its stream: resolve ack ids at the end
-        acked = {mid for ack, mid in inst["by_ack"].items() if is_u64(ack) and ack_value(ack) in inst["acked"]}
+        # ... and an ack id is inert (C04) once the script has seen the message handed out again under a newer id
+        by_val = {ack_value(ack): (ack, v) for ack, v in inst["by_ack"].items() if is_u64(ack)}
+        acked = set()
+        for val, ia in inst["acked"]:
+            if val not in by_val:
+                continue
+            ack, (mid, di) = by_val[val]
+            if not any(di < j < ia and a2 != ack for j, a2 in inst["seen"].get(mid, [])):
+                acked.add(mid)
         lost = inst["posted"] - acked - inst["drained"]
         if lost:
             return ("C01-lost: %d message(s) published to the topic of %r while it was attached (e.g. id %r) were never "
